@@ -12,7 +12,7 @@ from ..rt import scen
 from . import regkernel
 from .rtcommon import HOWS, RT_ASSUMPTIONS, make_replay
 
-NAMES = ["AtMostOneAccepting", "GuardReleasedOnEveryExit", "SecondAcceptRejectedCleanly", "ShutdownDoesNotRaise", "ShutdownReturnsObserved", "TerminationObserved", "RestartPossible", "StopReturnsNormally"]
+NAMES = ["NoStrayStart", "AtMostOneAccepting", "GuardReleasedOnEveryExit", "SecondAcceptRejectedCleanly", "ShutdownDoesNotRaise", "ShutdownReturnsObserved", "TerminationObserved", "RestartPossible", "StopReturnsNormally"]
 replay = make_replay(NAMES)
 
 
@@ -82,6 +82,19 @@ def run(ctx):
                       "script": [{"op": "adopt", "p": "a1"}, {"op": "accept"}, {"op": "wait_running"}, {"op": "wait_start", "p": "a1"}, {"op": "new_service", "s": "sbad", "ctx": "driver"}]
                       + ([{"op": "wait_end", "timeout": 4.0}, {"op": "shutdown", "ctx": "thread", "wait": True}] if k == 0 else [{"op": "wait_start", "p": "sbad"}, {"op": "shutdown", "ctx": "thread", "wait": True}, {"op": "wait_end", "timeout": 4.0}])
                       + [{"op": "second_accept", "timeout": 0.6}, {"op": "sleep", "ms": 50}, {"op": "shutdown2"}, {"op": "sleep", "ms": 150}], "shape": "targeted-service-loop-fails"})
+    # the polling interval of the service loop is a parameter: with accept_delay=0 the loop must
+    # still be interruptible (SIGINT, failure, shutdown)
+    for k, trig in enumerate(([{"op": "sigint"}], [{"op": "end", "p": "f", "how": "exc:UserExc"}], [{"op": "shutdown", "ctx": "thread", "wait": True}])):
+        extra.append({"seed": ctx.seed + k, "jitter": 0.0, "accept_delay": 0, "payloads": {"f": {"flavour": "threading"}, "a1": {"flavour": "asyncio", "cleanup": 1}, "t1": {"flavour": "trio", "cleanup": 1}},
+                      "script": [{"op": "adopt", "p": "a1"}, {"op": "adopt", "p": "t1"}, {"op": "adopt", "p": "f"}, {"op": "accept"}, {"op": "wait_running"}, {"op": "wait_start", "p": "a1"}, {"op": "wait_start", "p": "t1"}, {"op": "wait_start", "p": "f"}]
+                      + trig + [{"op": "wait_end", "timeout": 4.0}, {"op": "second_accept", "timeout": 0.6}, {"op": "sleep", "ms": 50}, {"op": "shutdown2"}, {"op": "sleep", "ms": 150}], "shape": "targeted-zero-accept-delay"})
+    # a second ServiceRunner instance whose accept() is refused keeps what was queued for IT:
+    # neither the active runtime nor the runner that accepts afterwards starts it
+    for f in scen.FLAVS:
+        extra.append({"seed": ctx.seed, "jitter": 0.0, "payloads": {"a1": {"flavour": "asyncio"}, "q": {"flavour": f}},
+                      "script": [{"op": "adopt", "p": "a1"}, {"op": "accept"}, {"op": "wait_running"}, {"op": "wait_start", "p": "a1"}, {"op": "adopt2", "p": "q"}, {"op": "second_accept", "timeout": 0.5},
+                                 {"op": "step", "p": "a1"}, {"op": "shutdown", "ctx": "thread", "wait": True}, {"op": "wait_end", "timeout": 4.0},
+                                 {"op": "second_accept", "timeout": 0.6}, {"op": "sleep", "ms": 150}, {"op": "shutdown2"}, {"op": "sleep", "ms": 150}], "shape": "targeted-refused-runner-keeps-its-queue"})
     # payloads that swallow their first cancellation(s)
     for k in range(3):
         extra.append({"seed": ctx.seed + k, "jitter": 0.0, "payloads": {"a1": {"flavour": "asyncio", "swallow": k, "cleanup": 1}, "t1": {"flavour": "trio"}},
